@@ -14,6 +14,9 @@ inductive SOp where
   | raise (s : Sig) | kgrp (s : Sig) | kpar (s : Sig)
   | pend | mask | caught
   | exit (n : Nat)
+  /-- `kill(pid, s)` (`s = none`: signal 0, the existence test) where `pid` is the most recent child, whose
+      termination `wait` has already reported -/
+  | klast (s : Option Sig)
   | bad
 
 inductive SObs where
@@ -22,6 +25,8 @@ inductive SObs where
   /-- a set of signals, listed in the order of `Sig.all` -/
   | sigs (l : List Sig)
   | unknown
+  /-- ESRCH: no such process -/
+  | esrch
   deriving DecidableEq, Repr
 
 def listOf (a : SigSet) : List Sig := Sig.all.filter a
@@ -42,6 +47,7 @@ def sstep (me : Proc) (par : Option Proc) : SOp → Proc × Option Proc × Optio
   | .mask => (me, par, some (.sigs (listOf me.mask)))
   | .caught => ((takeCaught me).2, par, some (.sigs (listOf (SigSet.ofList (takeCaught me).1))))
   | .exit n => (exit me n, par, none)
+  | .klast _ => (me, par, some (if me.reaped = 0 then .unknown else .esrch))
   | .bad => (me, par, some .unknown)
 
 /-- the operations of a child, from the states (`c`, `p`) of child and parent; stops when the child is gone -/
@@ -55,9 +61,9 @@ def childOps : Proc → Proc → List SOp → Proc × Proc × List SObs
       (rest.1, rest.2.1, match r.2.2 with | some o => o :: rest.2.2 | none => rest.2.2)
 
 /-- `fork[ops]`: the child starts as `fork par`, runs its operations, exits with 0 if it is still there;
-    the parent then gets SIGCHLD.  Result: parent afterwards, the child's answers, the child's status. -/
+    the parent then gets SIGCHLD and `wait`s for it (one more reaped child).  Result: parent afterwards, the child's answers, the child's status. -/
 def runChild (par : Proc) (ops : List SOp) : Proc × List SObs × Status :=
   let r := childOps (fork par) par ops
-  (generate r.2.1 .CHLD, r.2.2, (exit r.1 0).status)
+  ({ generate r.2.1 .CHLD with reaped := r.2.1.reaped + 1 }, r.2.2, (exit r.1 0).status)
 
 end YashModel.Kernel.Signal
